@@ -1,16 +1,18 @@
 """C16 — results depend only on the arguments: no hidden state, no argument mutation."""
-import copy, math, pickle, warnings
+import copy, hashlib, json, math, os, pathlib, pickle, subprocess, sys, warnings
+from concurrent.futures import ThreadPoolExecutor
 import numpy as np
 from common import jf, unjf
 import real, gen, translate
 from real import evolve_mf, ifmr, kicks, PowerLawIMF, MassBins
 
-TRUSTED = ["the syntactic alias analysis of translate.py (simple aliases of parameters)", "numpy/scipy have no hidden state that affects results"]
+TRUSTED = ["the syntactic alias analysis of translate.py (simple aliases of parameters, self attributes bound to parameters)", "numpy/scipy have no hidden state that affects results"]
 ASSUMPTIONS = ["argument objects are compared by deep snapshots (pickle bytes / array bytes) before and after every call"]
 RULE = ("corr: the generated mutation-site table (static) vs what random call histories actually do to shared argument objects (dynamic); "
         "sweep: histories of 2-8 constructor calls (IFMR, MassBins, EvolvedMF, EvolvedMFWithBH, InitialBHPopulation) sharing option "
         "dictionaries, IMF objects, lists and arrays across calls with differing metallicity/options: arguments unchanged, the same model "
-        "built with fresh literals is bit-identical, in-place routines return the very arrays; distinct = distinct histories")
+        "built with fresh literals is bit-identical, and bit-identical to the same call built as the first construction of a fresh interpreter "
+        "(process-wide hidden state), in-place routines return the very arrays; distinct = distinct histories")
 
 
 def snap(obj):
@@ -101,8 +103,53 @@ def do_call(c, pool, fresh=False):
     raise ValueError(c["kind"])
 
 
-def check_history(hist):
+# ------------------------------------------------------------------ fresh-interpreter references (process-wide hidden state)
+HARNESS = str(pathlib.Path(__file__).resolve().parents[1])
+_FRESH = "import sys; sys.path.insert(0, %r); from props import C16; C16._fresh_main()" % HARNESS
+
+
+def digest(rb):
+    return hashlib.sha256(pickle.dumps(rb, protocol=4)).hexdigest()
+
+
+def _fresh_main():
+    """child: build call i of the history as the very first construction of this interpreter and print the digest of the result"""
     import random
+    req = json.loads(sys.stdin.read())
+    pool = make_pool(random.Random(req["hist"]["pool_seed"]))
+    try:
+        res = do_call(req["hist"]["calls"][req["i"]], pool, fresh=True)
+        print("DIGEST " + digest(result_bytes(res)))
+    except Exception as e:
+        print("ERROR " + f"{type(e).__name__}: {e}"[:140])
+
+
+def fresh_digest(hist, i):
+    try:
+        out = subprocess.run([sys.executable, "-c", _FRESH], input=json.dumps({"hist": hist, "i": i}), capture_output=True, text=True,
+                             timeout=600, env=dict(os.environ))
+    except subprocess.TimeoutExpired:
+        return None
+    for line in out.stdout.splitlines():
+        if line.startswith("DIGEST "):
+            return line.split()[1]
+    return None          # no reference (the child raised or timed out): the clause is not evaluated for this call
+
+
+def fresh_digests(hists, workers=16):
+    """{(history index, call index): digest} for every call of every history, each in its own interpreter"""
+    tasks = [(h, i) for h, hist in enumerate(hists) for i in range(len(hist["calls"]))]
+    with ThreadPoolExecutor(max_workers=workers) as ex:
+        vals = list(ex.map(lambda t: fresh_digest(hists[t[0]], t[1]), tasks))
+    return dict(zip(tasks, vals))
+
+
+def check_history(hist, refs=None):
+    """refs: {call index: digest of the same call built first in a fresh interpreter} (None = compute them here when hist['fresh'] is set)"""
+    import random
+    if refs is None and hist.get("fresh"):
+        d = fresh_digests([hist], workers=8)
+        refs = {i: v for (_, i), v in d.items()}
     pool = make_pool(random.Random(hist["pool_seed"]))
     original = copy.deepcopy(pool)
     s0 = {k: snap(v) for k, v in pool.items()}
@@ -124,6 +171,9 @@ def check_history(hist):
         rb = result_bytes(res)
         if rb != result_bytes(ref):
             return {"clause": "the same model built after other constructions that share argument objects is bit-identical to a fresh build",
+                    "call": i, "kind": c["kind"], "FeH": c["FeH"]}
+        if refs and refs.get(i) is not None and digest(rb) != refs[i]:
+            return {"clause": "the same model built as the first construction of a fresh interpreter is bit-identical (process-wide hidden state)",
                     "call": i, "kind": c["kind"], "FeH": c["FeH"]}
         built.append((i, c, res, rb))
     # no hidden state: what an earlier construction returned is not altered by later ones
@@ -172,9 +222,15 @@ def corr(ctx):
 
 def sweep(ctx):
     eff = getattr(ctx, "effort", 1)
-    for _ in range(ctx.n(24, 1000) * eff):
-        hist = gen_history(ctx.rng)
-        bad = check_history(hist)
+    hists = [gen_history(ctx.rng) for _ in range(ctx.n(24, 1000) * eff)]
+    # fresh-interpreter references for the first histories (every one in the quick tier): one interpreter per call, 16 at a time
+    nfresh = min(len(hists), 24 * eff if len(hists) <= 24 * eff else 120)
+    for hist in hists[:nfresh]:
+        hist["fresh"] = True
+    d = fresh_digests(hists[:nfresh])
+    for k, hist in enumerate(hists):
+        refs = {i: v for (h, i), v in d.items() if h == k} if k < nfresh else None
+        bad = check_history(hist, refs=refs or None)
         ctx.sweep_case("histories", repr(hist), bad is None, {"failing_input": {"call": "history", "args": hist}, "observed": bad},
                        branch="len=%d" % len(hist["calls"]))
     bad = check_inplace(ctx.rng)
